@@ -687,10 +687,30 @@ class Interp:
         nontrivial = [e for e in spatial if not (isinstance(e, ast.Slice) and e.lower is None
                                                  and e.upper is None and e.step is None)]
         if nontrivial:
-            r.spatial = arr.spatial + [norm(ast.Tuple(elts=spatial, ctx=ast.Load())) if len(spatial) > 1
-                                       else norm(spatial[0])]
-            r.spatial_nodes = getattr(arr, "spatial_nodes", []) + [spatial]
-            r.dims = [Num.atom(f"sub({d.text()})") for d in arr.dims]
+            # symmetric trims  a:-b  (ghost-cell strip) keep an exact extent: D - a - b
+            newdims, exact = [], len(spatial) == nd
+            for d, e in zip(arr.dims, spatial + [None] * (nd - len(spatial))):
+                if e is None or (isinstance(e, ast.Slice) and e.lower is None and e.upper is None and e.step is None):
+                    newdims.append(d)
+                elif isinstance(e, ast.Slice) and e.step is None and e.lower is not None and \
+                        isinstance(e.upper, ast.UnaryOp) and isinstance(e.upper.op, ast.USub):
+                    lo, up = self.ev(e.lower, st), self.ev(e.upper.operand, st)
+                    if isinstance(lo, Num) and isinstance(up, Num):
+                        newdims.append(Num(d.r - lo.r - up.r))
+                    else:
+                        exact = False
+                        newdims.append(Num.atom(f"sub({d.text()})"))
+                else:
+                    exact = False
+                    newdims.append(Num.atom(f"sub({d.text()})"))
+            if exact:
+                r.dims = newdims
+                r.trimmed = getattr(arr, "trimmed", []) + [norm(ast.Tuple(elts=spatial, ctx=ast.Load()))]
+            else:
+                r.spatial = arr.spatial + [norm(ast.Tuple(elts=spatial, ctx=ast.Load())) if len(spatial) > 1
+                                           else norm(spatial[0])]
+                r.spatial_nodes = getattr(arr, "spatial_nodes", []) + [spatial]
+                r.dims = [Num.atom(f"sub({d.text()})") for d in arr.dims]
         if comp_sel is None:
             return r
         if not arr.has_comp_axis:
@@ -1500,6 +1520,13 @@ class Interp:
         """walk the body once; check the loop-head position invariant for scanned handles"""
         head = dict(st.hpos)
         n0 = len(st.events)
+        # loop counters (k = 0 before the loop, k += 1 in the body) are symbolic inside the body
+        for n in ast.walk(ast.Module(body=s.body, type_ignores=[])):
+            if isinstance(n, ast.AugAssign) and isinstance(n.op, ast.Add) and isinstance(n.target, ast.Name) \
+                    and isinstance(n.value, ast.Constant) and n.value.value == 1:
+                cur = st.env.get(n.target.id)
+                if isinstance(cur, Num) and cur.r.const() is not None:
+                    st.env[n.target.id] = Num.atom(f"#{n.target.id}")
         self.loop_stack.append(label)
         st.loop_depth += 1
         outs = self.block(s.body, [st])
